@@ -210,6 +210,15 @@ def run_digitize(cfg):
         nane = numpy.digitize(numpy.array([numpy.nan]), b, right=True)
         if not numpy.array_equal(nanq, nane):
             viol.append(harness.violation("digitize/compiled-tree", f"digitize/compiled-tree-vs-numpy.digitize(nan)/{'increasing' if asc else 'decreasing'}", cfg, {}, dict(bins=b.tolist(), x="nan", tree=float(nanq[0]), numpy_digitize=int(nane[0]), missing_go_to_left=numpy.asarray(getattr(real.tree_, "missing_go_to_left", [])).tolist()[:8]), True))
+        # the edges as a caller may hold them: small unsigned / signed integers, float32 (same values)
+        for dt in (numpy.uint8, numpy.int32, numpy.float32):
+            bt = b.astype(dt)
+            gt = td.digitize2tree(bt, right=True).predict(xs.reshape(-1, 1))
+            et = numpy.digitize(xs.astype(numpy.float64), bt, right=True)
+            if not numpy.array_equal(gt, et):
+                i = int(numpy.nonzero(gt != et)[0][0])
+                viol.append(harness.violation("digitize/compiled-tree", f"digitize/compiled-tree-vs-numpy.digitize({numpy.dtype(dt).name}-edges)/{'increasing' if asc else 'decreasing'}", cfg, {}, dict(bins=bt.tolist(), bins_dtype=numpy.dtype(dt).name, x=float(xs[i]), tree=float(gt[i]), numpy_digitize=int(et[i])), True))
+                break
         rp = real.predict(xs.reshape(-1, 1))
         mp = numpy.array([float(v) for v in _digitize_model(td, b).predict([[float(v)] for v in xs])])
         if numpy.array_equal(rp, mp) and real.tree_.node_count == _digitize_model(td, b).tree_.node_count:
@@ -248,6 +257,14 @@ def replay_digitize(cfg, inputs, label):
     if len(bad):
         i = int(bad[0])
         return True, dict(bins=bins.tolist(), x=float(xs[i]), tree=float(got[i]), numpy_digitize=int(exp[i]))
+    if bins.min() >= 0 and bins.max() < 250:
+        for dt in (numpy.uint8, numpy.int32, numpy.float32):
+            bt = bins.astype(dt)
+            gt = td.digitize2tree(bt, right=True).predict(xs[:-1].reshape(-1, 1).astype(numpy.float32))
+            et = numpy.digitize(xs[:-1], bt, right=True)
+            if not numpy.array_equal(gt, et):
+                i = int(numpy.nonzero(gt != et)[0][0])
+                return True, dict(bins=bt.tolist(), bins_dtype=numpy.dtype(dt).name, x=float(xs[i]), tree=float(gt[i]), numpy_digitize=int(et[i]))
     return False, "tree == numpy.digitize on and around every edge"
 
 
